@@ -128,7 +128,8 @@ Definition by_name (n : string) : list wrapper := filter (fun w => String.eqb (w
 Definition split_in_two (name : string) (w : wrapper) : wrapper :=
   if String.eqb (w_name w) name then
     {| w_name := w_name w; w_shape := w_shape w;
-       w_sections := {| s_mode := R; s_callees := []; s_pr := []; s_pw := []; s_ar := []; s_aw := [] |} :: w_sections w |}
+       w_sections := {| s_mode := R; s_callees := []; s_pr := []; s_pw := []; s_ar := []; s_aw := [] |} :: w_sections w;
+       w_escapes := w_escapes w |}
   else w.
 
 Example C13_nonvacuous :
